@@ -25,11 +25,15 @@ def main():
         i = args.index('--tier')
         tier = args[i + 1]
         del args[i:i + 2]
-    extra_props = {}
+    repo = '/repo'
+    if '--repo' in args:      # a scratch worktree of /repo's HEAD (checks then run with VERIF_REPO=<path>)
+        i = args.index('--repo')
+        repo = args[i + 1]
+        del args[i:i + 2]
     ids = args or sorted(x for x in os.listdir(os.path.join(VERIF, 'seeded')) if not x.startswith('_'))
-    st = subprocess.run(['git', '-C', '/repo', 'status', '--porcelain'], capture_output=True, text=True).stdout
+    st = subprocess.run(['git', '-C', repo, 'status', '--porcelain'], capture_output=True, text=True).stdout
     if st.strip():
-        print('refusing: /repo has uncommitted changes:\n' + st)
+        print('refusing: %s has uncommitted changes:\n' % repo + st)
         return 2
     rows = []
     for sid in ids:
@@ -41,19 +45,19 @@ def main():
             meta['detected_by'] = {'tier': tier, 'result': 'property not claimed'}
             json.dump(meta, open(os.path.join(d, 'meta.json'), 'w'), indent=1)
             continue
-        r = subprocess.run(['git', '-C', '/repo', 'apply', os.path.join(d, 'patch.diff')], capture_output=True, text=True)
+        r = subprocess.run(['git', '-C', repo, 'apply', os.path.join(d, 'patch.diff')], capture_output=True, text=True)
         if r.returncode != 0:
             rows.append((sid, prop, '-', 'patch does not apply: ' + r.stderr[:100]))
             continue
         t0 = time.time()
         try:
             p = subprocess.run([os.path.join(VERIF, 'check'), prop, '--tier', tier], capture_output=True, text=True,
-                               cwd=VERIF, timeout=7200)
+                               cwd=VERIF, timeout=14400, env=dict(os.environ, VERIF_REPO=repo))
             out = p.stdout + p.stderr
             rc = p.returncode
         finally:
-            subprocess.run(['git', '-C', '/repo', 'checkout', '--', '.'])
-            subprocess.run(['git', '-C', '/repo', 'clean', '-fdq'])
+            subprocess.run(['git', '-C', repo, 'checkout', '--', '.'])
+            subprocess.run(['git', '-C', repo, 'clean', '-fdq', '-e', 'target'])
         failed = re.findall(r'FAILED obligation (\S+)', out)
         viol = [l for l in out.splitlines() if l.startswith('VIOLATION')]
         und = [l for l in out.splitlines() if l.startswith('UNDECIDED') or 'UNDECIDED:' in l]
